@@ -1081,51 +1081,59 @@ class Component(
         # or inspect the Context object, your screen is filled with the deeply nested ComponentContext objects.
         component_context_cache[render_id] = component_ctx
 
-        # Allow to access component input and metadata like component ID from within these hook
-        with self._with_metadata(metadata):
-            context_data = self.get_context_data(*args, **kwargs)
-            # TODO - enable JS and CSS vars - EXPOSE AND DOCUMENT AND MAKE NON-NULL
-            js_data = self.get_js_data(*args, **kwargs) if hasattr(self, "get_js_data") else {}  # type: ignore
-            css_data = self.get_css_data(*args, **kwargs) if hasattr(self, "get_css_data") else {}  # type: ignore
-        self._validate_outputs(data=context_data)
+        try:
+            # Allow to access component input and metadata like component ID from within these hook
+            with self._with_metadata(metadata):
+                context_data = self.get_context_data(*args, **kwargs)
+                # TODO - enable JS and CSS vars - EXPOSE AND DOCUMENT AND MAKE NON-NULL
+                js_data = self.get_js_data(*args, **kwargs) if hasattr(self, "get_js_data") else {}  # type: ignore
+                css_data = self.get_css_data(*args, **kwargs) if hasattr(self, "get_css_data") else {}  # type: ignore
+            self._validate_outputs(data=context_data)
 
-        # Process Component's JS and CSS
-        cache_component_js(self.__class__)
-        js_input_hash = cache_component_js_vars(self.__class__, js_data) if js_data else None
+            # Process Component's JS and CSS
+            cache_component_js(self.__class__)
+            js_input_hash = cache_component_js_vars(self.__class__, js_data) if js_data else None
 
-        cache_component_css(self.__class__)
-        css_input_hash = cache_component_css_vars(self.__class__, css_data) if css_data else None
+            cache_component_css(self.__class__)
+            css_input_hash = cache_component_css_vars(self.__class__, css_data) if css_data else None
 
-        with _prepare_template(self, context, context_data, metadata) as template:
-            component_ctx.template_name = template.name
+            with _prepare_template(self, context, context_data, metadata) as template:
+                component_ctx.template_name = template.name
 
-            # For users, we expose boolean variables that they may check
-            # to see if given slot was filled, e.g.:
-            # `{% if variable > 8 and component_vars.is_filled.header %}`
-            is_filled = SlotIsFilled(slots_untyped)
-            metadata.is_filled = is_filled
+                # For users, we expose boolean variables that they may check
+                # to see if given slot was filled, e.g.:
+                # `{% if variable > 8 and component_vars.is_filled.header %}`
+                is_filled = SlotIsFilled(slots_untyped)
+                metadata.is_filled = is_filled
 
-            with context.update(
-                {
-                    # Private context fields
-                    _COMPONENT_CONTEXT_KEY: render_id,
-                    # NOTE: Public API for variables accessible from within a component's template
-                    # See https://github.com/django-components/django-components/issues/280#issuecomment-2081180940
-                    "component_vars": ComponentVars(
-                        is_filled=is_filled,
-                    ),
-                }
-            ):
-                # Make a "snapshot" of the context as it was at the time of the render call.
-                #
-                # Previously, we recursively called `Template.render()` as this point, but due to recursion
-                # this was limiting the number of nested components to only about 60 levels deep.
-                #
-                # Now, we make a flat copy, so that the context copy is static and doesn't change even if
-                # we leave the `with context.update` blocks.
-                #
-                # This makes it possible to render nested components with a queue, avoiding recursion limits.
-                context_snapshot = snapshot_context(context)
+                with context.update(
+                    {
+                        # Private context fields
+                        _COMPONENT_CONTEXT_KEY: render_id,
+                        # NOTE: Public API for variables accessible from within a component's template
+                        # See https://github.com/django-components/django-components/issues/280#issuecomment-2081180940
+                        "component_vars": ComponentVars(
+                            is_filled=is_filled,
+                        ),
+                    }
+                ):
+                    # Make a "snapshot" of the context as it was at the time of the render call.
+                    #
+                    # Previously, we recursively called `Template.render()` as this point, but due to recursion
+                    # this was limiting the number of nested components to only about 60 levels deep.
+                    #
+                    # Now, we make a flat copy, so that the context copy is static and doesn't change even if
+                    # we leave the `with context.update` blocks.
+                    #
+                    # This makes it possible to render nested components with a queue, avoiding recursion limits.
+                    context_snapshot = snapshot_context(context)
+
+        except Exception:
+            # The component won't be rendered, so forget what we have registered for it above
+            component_context_cache.pop(render_id, None)
+            unregister_provide_reference(render_id)
+            context.render_context.pop()
+            raise
 
         # Cleanup
         context.render_context.pop()
